@@ -418,9 +418,23 @@ Definition fits_rlist (mtu : nat) (p : bytes) : bool :=
 Definition sender_fits (s : sender) : bool :=
   forallb (fits_rlist (N.to_nat (sc_mtu s))) (sc_sent s).
 
+(** the frames among the operations, in order *)
+Definition rframes (ops : list rop) : list bytes :=
+  flat_map (fun o => match o with RFrame raw => [raw] | RCleanup => [] end) ops.
+
+(** no two cleanup ticks without a frame between them ([prev]: the previous operation
+    was a tick): a reassembly list that receives frames is touched between any two ticks *)
+Fixpoint no_adjacent_ticks (ops : list rop) (prev : bool) : bool :=
+  match ops with
+  | [] => true
+  | RCleanup :: t => negb prev && no_adjacent_ticks t true
+  | RFrame _ :: t => no_adjacent_ticks t false
+  end.
+
 (** the property, evaluated on what the receiver emitted: with genuine frames of
     senders with distinct streams only, every emitted packet was sent; all frames of
-    one sender in order give exactly the packets sent *)
+    one sender in order, with cleanup ticks anywhere but never two in a row, give exactly
+    the packets sent *)
 Definition e2e_oracle (snd : list sender) (frames : list (list bytes)) (plan : list dop)
   (out : list (list bytes)) : bool :=
   if forallb is_genuine plan && forallb (fun s => mtu_ok (sc_mtu s)) snd
@@ -429,8 +443,10 @@ Definition e2e_oracle (snd : list sender) (frames : list (list bytes)) (plan : l
   then
     forallb (fun p => inb p (flat_map sc_sent snd)) (concat out)
     && match snd, frames with
-       | [s], [fs] => if in_order plan (length fs) then bytes_list_eqb (concat out) (sc_sent s)
-                      else true
+       | [s], [fs] =>
+         let rops := map (rop_of frames) plan in
+         if bytes_list_eqb (rframes rops) fs && no_adjacent_ticks rops false
+         then bytes_list_eqb (concat out) (sc_sent s) else true
        | _, _ => true
        end
   else true.
